@@ -3,7 +3,7 @@
 //! `SymRng`: every call returns a fresh nondeterministic word (under Kani) and counts the
 //! number of 32/64-bit draws.  A property asserted with it holds for every random stream.
 //!
-//! `TapeRng<T>`: a fixed tape of `T` words (symbolic under Kani) followed by zeros; `Clone`
+//! `TapeRng<T>`: a fixed tape of `T` words (symbolic under Kani) followed by a constant tail word; `Clone`
 //! gives two runs the same stream; `cursor` exposes how much of the stream was consumed.
 //!
 //! Natively (replays, reference tests) both are driven by explicit word lists.
@@ -88,18 +88,23 @@ impl RngCore for SymRng {
 pub struct TapeRng<const T: usize> {
     pub tape: [u64; T],
     pub cursor: usize,
+    /// word returned once the tape is exhausted.  rand's uniform-integer rejection loop accepts
+    /// `lo = (w * range) mod 2^k >= thresh`: an all-ones word is always accepted (a zero word is
+    /// rejected whenever the range is not a power of two), so loops over a TapeRng with an
+    /// all-ones tail end within T+1 iterations.
+    pub tail: u64,
 }
 
 impl<const T: usize> TapeRng<T> {
     #[cfg(kani)]
     pub fn any() -> Self {
-        TapeRng { tape: kani::any(), cursor: 0 }
+        TapeRng { tape: kani::any(), cursor: 0, tail: u64::MAX }
     }
     pub fn from_words(tape: [u64; T]) -> Self {
-        TapeRng { tape, cursor: 0 }
+        TapeRng { tape, cursor: 0, tail: u64::MAX }
     }
     fn word(&mut self) -> u64 {
-        let w = if self.cursor < T { self.tape[self.cursor] } else { 0 };
+        let w = if self.cursor < T { self.tape[self.cursor] } else { self.tail };
         self.cursor += 1;
         w
     }
